@@ -40,6 +40,9 @@ type concShared struct {
 	// slots, when set, is ONE option slice with a nil placeholder that every client's RegisterNode calls
 	// are made from (slots... for DenyOverwrite, slots[:1]... otherwise): arguments stay the caller's
 	slots []el.Option
+	// badOpt is ONE Option value (built from a policy that does not exist) that every client passes along
+	// now and then: each such call is refused, and option values can be shared like any other value
+	badOpt el.Option
 }
 
 //go:norace
@@ -235,7 +238,9 @@ func execOp(ctx context.Context, b *el.Broker, o *cOp, sh *concShared) {
 		if o.Policy == "deny" {
 			opts = append(opts, el.WithNodeRegistrationPolicy(el.DenyOverwrite))
 		}
-		if sh.slots != nil {
+		if o.Policy == "invalid" {
+			opts = []el.Option{sh.badOpt}
+		} else if sh.slots != nil {
 			opts = sh.slots[:1] // the placeholder only
 			if o.Policy == "deny" {
 				opts = sh.slots
@@ -443,6 +448,9 @@ func cmStep(st cmState, in interface{}) (bool, cmState) {
 			delete(n.nodes, o.ID)
 			return true, n
 		case "regnode":
+			if o.Policy == "invalid" {
+				return !o.OK, st // refused, whatever is registered
+			}
 			// (a node registered with DenyOverwrite carries the mark in its model label)
 			if cur, ok := st.nodes[o.ID]; ok && strings.HasSuffix(cur, "|deny") {
 				return !o.OK, st // sticky: every later registration under the id fails
@@ -515,7 +523,7 @@ type concDesc struct {
 func runConc(rc *RunCtx, prop string) {
 	tp := rc.Tape
 	sim := rc.Sim
-	sh := &concShared{}
+	sh := &concShared{badOpt: el.WithNodeRegistrationPolicy("denyoverwrite")}
 	broker, _ := el.NewBroker()
 	types := []string{"ta", "tb"}
 	pids := []string{"p0", "p1", "p2"}
@@ -658,6 +666,9 @@ func runConc(rc *RunCtx, prop string) {
 			o := &cOp{Kind: "regnode", ID: id}
 			if tp.Choose(4, "node-deny") == 0 {
 				o.Policy = "deny"
+			} else if prop == "C04" && tp.Choose(5, "shared-invalid-policy-option") == 0 {
+				o.Policy = "invalid"
+				simrt.Probe("history.shared-invalid-option")
 			}
 			o.obj = &markNode{label: fmt.Sprintf("%s'%d", id, objSeq), kind: kinds[id], sh: sh, fail: closeFails}
 			return one(o)
